@@ -125,7 +125,7 @@ def main():
             unw_b = [o for o in obl_b if 'unwinding assertion' in o['desc'] and o['status'] == 'FAILURE']
             if unw_b:
                 infra.append('%s: the stated bound %s does not cover the loops (%s)' % (u['id'], u['bounded'], unw_b[0]['name']))
-            rel_b = [o for o in obl_b if not o['desc'].startswith('REACHABILITY') and relevant(o, prop, u)]
+            rel_b = [o for o in obl_b if not o['desc'].startswith('REACHABILITY') and 'unwinding assertion' not in o['desc'] and relevant(o, prop, u)]
             ok_b = [o for o in rel_b if o['status'] == 'SUCCESS']
             bounded_units[u['id']] = {'function': (u.get('extra_reach') or [u['target']])[0], 'bound': 'loops unwound %s times; %s' % (u['bounded'], u.get('bound_text', '')),
                                       'obligations': len(rel_b), 'discharged': len(ok_b), 'seconds': round(rm.get('seconds', 0), 2),
